@@ -544,6 +544,22 @@ pub struct Conn {
 
 impl Drop for Conn {
     fn drop(&mut self) {
+        // The verdict has been computed; what follows only serves the tear-down of the execution. A dispatcher that
+        // sits in its reading pause (publish service held not ready, or every receive slot taken by a handler that
+        // waits on a gate) never notices that the peer is gone, so its task would still be alive when the runtime
+        // is dropped - and a sleeping task whose waker is stored inside its own future is never freed then (about
+        // 3 KB per execution, gigabytes over a thorough run). Let everything finish: end the hold, open every gate.
+        let st = READY_GATE.with(|c| c.borrow_mut().take());
+        if let Some(st) = st {
+            st.held.set(false);
+            let w = st.waker.borrow_mut().take();
+            if let Some(w) = w {
+                w.wake();
+            }
+        }
+        for g in [&self.gates, &self.pgates, &self.hgates, &self.rgates, &self.cgates] {
+            g.open_all(GateOutcome::Ok);
+        }
         self.gates.clear_wakers();
         self.pgates.clear_wakers();
         self.hgates.clear_wakers();
